@@ -78,7 +78,7 @@ fn read_i8_values(src: &mut &[u8], sample_count: usize) -> Result<Vec<Option<Val
         match value {
             Int8::Value(n) => values.push(Some(Value::from(i32::from(n)))),
             Int8::Missing => values.push(None),
-            _ => todo!("unhandled i8 value: {:?}", value),
+            _ => return Err(DecodeError::InvalidValue),
         }
     }
 
@@ -95,16 +95,16 @@ fn read_i8_array_values(
     for _ in 0..sample_count {
         let buf = read_i8s(src, len).map_err(DecodeError::InvalidRawValue)?;
 
-        let vs: Vec<_> = buf
+        let vs = buf
             .into_iter()
             .map(Int8::from)
             .filter_map(|value| match value {
-                Int8::Value(n) => Some(Some(i32::from(n))),
-                Int8::Missing => Some(None),
+                Int8::Value(n) => Some(Ok(Some(i32::from(n)))),
+                Int8::Missing => Some(Ok(None)),
                 Int8::EndOfVector => None,
-                _ => todo!("unhandled i8 array value: {:?}", value),
+                Int8::Reserved(_) => Some(Err(DecodeError::InvalidValue)),
             })
-            .collect();
+            .collect::<Result<Vec<_>, _>>()?;
 
         if vs.len() == 1 && vs[0].is_none() {
             values.push(None);
@@ -130,7 +130,7 @@ fn read_i16_values(
         match value {
             Int16::Value(n) => values.push(Some(Value::from(i32::from(n)))),
             Int16::Missing => values.push(None),
-            _ => todo!("unhandled i16 value: {:?}", value),
+            _ => return Err(DecodeError::InvalidValue),
         }
     }
 
@@ -147,16 +147,16 @@ fn read_i16_array_values(
     for _ in 0..sample_count {
         let buf = read_i16s(src, len).map_err(DecodeError::InvalidRawValue)?;
 
-        let vs: Vec<_> = buf
+        let vs = buf
             .into_iter()
             .map(Int16::from)
             .filter_map(|value| match value {
-                Int16::Value(n) => Some(Some(i32::from(n))),
-                Int16::Missing => Some(None),
+                Int16::Value(n) => Some(Ok(Some(i32::from(n)))),
+                Int16::Missing => Some(Ok(None)),
                 Int16::EndOfVector => None,
-                _ => todo!("unhandled i16 array value: {:?}", value),
+                Int16::Reserved(_) => Some(Err(DecodeError::InvalidValue)),
             })
-            .collect();
+            .collect::<Result<Vec<_>, _>>()?;
 
         if vs.len() == 1 && vs[0].is_none() {
             values.push(None);
@@ -182,7 +182,7 @@ fn read_i32_values(
         match value {
             Int32::Value(n) => values.push(Some(Value::from(n))),
             Int32::Missing => values.push(None),
-            _ => todo!("unhandled i32 value: {:?}", value),
+            _ => return Err(DecodeError::InvalidValue),
         }
     }
 
@@ -199,16 +199,16 @@ fn read_i32_array_values(
     for _ in 0..sample_count {
         let buf = read_i32s(src, len).map_err(DecodeError::InvalidRawValue)?;
 
-        let vs: Vec<_> = buf
+        let vs = buf
             .into_iter()
             .map(Int32::from)
             .filter_map(|value| match value {
-                Int32::Value(n) => Some(Some(n)),
-                Int32::Missing => Some(None),
+                Int32::Value(n) => Some(Ok(Some(n))),
+                Int32::Missing => Some(Ok(None)),
                 Int32::EndOfVector => None,
-                _ => todo!("unhandled i32 array value: {:?}", value),
+                Int32::Reserved(_) => Some(Err(DecodeError::InvalidValue)),
             })
-            .collect();
+            .collect::<Result<Vec<_>, _>>()?;
 
         if vs.len() == 1 && vs[0].is_none() {
             values.push(None);
@@ -234,7 +234,7 @@ fn read_f32_values(
         match value {
             Float::Value(n) => values.push(Some(Value::from(n))),
             Float::Missing => values.push(None),
-            _ => todo!("unhandled f32 value: {:?}", value),
+            _ => return Err(DecodeError::InvalidValue),
         }
     }
 
@@ -251,16 +251,16 @@ fn read_f32_array_values(
     for _ in 0..sample_count {
         let buf = read_f32s(src, len).map_err(DecodeError::InvalidRawValue)?;
 
-        let vs: Vec<_> = buf
+        let vs = buf
             .into_iter()
             .map(Float::from)
             .filter_map(|value| match value {
-                Float::Value(n) => Some(Some(n)),
-                Float::Missing => Some(None),
+                Float::Value(n) => Some(Ok(Some(n))),
+                Float::Missing => Some(Ok(None)),
                 Float::EndOfVector => None,
-                _ => todo!("unhandled f32 array value: {:?}", value),
+                Float::Reserved(_) => Some(Err(DecodeError::InvalidValue)),
             })
-            .collect();
+            .collect::<Result<Vec<_>, _>>()?;
 
         if vs.len() == 1 && vs[0].is_none() {
             values.push(None);
@@ -473,6 +473,7 @@ pub enum DecodeError {
     InvalidRawValue(raw_value::DecodeError),
     InvalidString(str::Utf8Error),
     InvalidGenotype,
+    InvalidValue,
 }
 
 impl error::Error for DecodeError {
@@ -494,6 +495,7 @@ impl fmt::Display for DecodeError {
             Self::InvalidRawValue(_) => write!(f, "invalid raw value"),
             Self::InvalidString(_) => write!(f, "invalid string"),
             Self::InvalidGenotype => write!(f, "invalid genotype"),
+            Self::InvalidValue => write!(f, "invalid value"),
         }
     }
 }
@@ -501,6 +503,49 @@ impl fmt::Display for DecodeError {
 #[cfg(test)]
 mod tests {
     use super::*;
+
+    #[test]
+    fn test_read_values_with_invalid_values() {
+        fn t(mut src: &[u8], number: Number, ty: format::Type) {
+            assert_eq!(
+                read_values(&mut src, number, ty, 1),
+                Err(DecodeError::InvalidValue)
+            );
+        }
+
+        // end-of-vector and reserved values
+        t(&[0x11, 0x81], Number::Count(1), format::Type::Integer);
+        t(&[0x11, 0x82], Number::Count(1), format::Type::Integer);
+        t(&[0x12, 0x01, 0x80], Number::Count(1), format::Type::Integer);
+        t(
+            &[0x13, 0x01, 0x00, 0x00, 0x80],
+            Number::Count(1),
+            format::Type::Integer,
+        );
+        t(
+            &[0x15, 0x02, 0x00, 0x80, 0x7f],
+            Number::Count(1),
+            format::Type::Float,
+        );
+
+        // reserved values
+        t(&[0x21, 0x05, 0x82], Number::Count(2), format::Type::Integer);
+        t(
+            &[0x22, 0x05, 0x00, 0x02, 0x80],
+            Number::Count(2),
+            format::Type::Integer,
+        );
+        t(
+            &[0x23, 0x05, 0x00, 0x00, 0x00, 0x02, 0x00, 0x00, 0x80],
+            Number::Count(2),
+            format::Type::Integer,
+        );
+        t(
+            &[0x25, 0x00, 0x00, 0x00, 0x00, 0x03, 0x00, 0x80, 0x7f],
+            Number::Count(2),
+            format::Type::Float,
+        );
+    }
 
     #[test]
     fn test_read_values_with_int8_values() {
